@@ -845,12 +845,14 @@ class Ctx:
         else:
             excl = []
             lin = None
-            if linear_only and self.nl:
-                # enumerate against the linear part of the path condition only (a superset of the feasible values:
-                # an infeasible choice only yields a path whose obligations hold vacuously)
+            if linear_only and (self.nl or _is_nonlinear(t)):
+                # enumerate against a linear abstraction of the path condition: every non-linear product is replaced by
+                # a fresh variable (a superset of the feasible values: an infeasible choice only yields a path whose
+                # obligations hold vacuously)
                 lin = z3.Solver()
                 lin.set("timeout", self.timeout_ms)
-                lin.add(*[a for a in self.pc if not _is_nonlinear(a)])
+                lin.add(*[self._abstract(a) for a in self.pc])
+                t = self._abstract(t)
             while True:
                 if lin is not None:
                     t0 = time.perf_counter()
@@ -881,6 +883,47 @@ class Ctx:
         self.decisions.append(("v", vals[0]))
         self._add(t == vals[0])
         return vals[0]
+
+    def _abstract(self, term):
+        """replace maximal non-linear sub-terms (products of non-constants, divisions by non-constants, powers) by fresh reals"""
+        if not _is_nonlinear(term):
+            return term
+        if not hasattr(self, "_abs_map"):
+            self._abs_map = {}
+        pairs = []
+        stack = [term]
+        seen = set()
+        while stack:
+            e = stack.pop()
+            i = e.get_id()
+            if i in seen or not z3.is_app(e):
+                continue
+            seen.add(i)
+            k = e.decl().kind()
+            ch = e.children()
+            nl_here = False
+            if k == z3.Z3_OP_MUL:
+                nl_here = len([c for c in ch if not (z3.is_rational_value(c) or z3.is_int_value(c))]) >= 2
+            elif k in (z3.Z3_OP_DIV, z3.Z3_OP_IDIV, z3.Z3_OP_MOD, z3.Z3_OP_REM):
+                nl_here = not (z3.is_rational_value(ch[1]) or z3.is_int_value(ch[1]))
+            elif k == z3.Z3_OP_POWER:
+                nl_here = True
+            if nl_here:
+                key = ("*" + "|".join(sorted(c.sexpr() for c in ch))) if k == z3.Z3_OP_MUL else e.sexpr()
+                if key not in self._abs_map:
+                    self._abs_map[key] = (e, z3.Real("abs!%d" % len(self._abs_map)) if e.sort() == z3.RealSort()
+                                          else z3.Int("abs!%d" % len(self._abs_map)))
+                pairs.append((e, self._abs_map[key][1]))
+            else:
+                stack.extend(ch)
+        return z3.substitute(term, *pairs) if pairs else term
+
+    def lemma(self, cond, label):
+        """prove `cond` under the path condition (an obligation), then add it to the path condition as a known fact"""
+        ok = self.claim(cond, label)
+        if ok and isinstance(cond, SymBool):
+            self._add(z3.simplify(cond.t))
+        return ok
 
     def pc_mentions(self, var):
         """True if `var` (a fresh selector) is constrained by anything but its own range assertion"""
